@@ -64,6 +64,12 @@ theorem tr_error (o : Obj) (i : Bool) : Tr o (error o i).1 (error o i).2 := by
   · rename_i h
     exact ⟨rfl, rfl, fun hw' => absurd hw' h, fun _ hws => ⟨hws, rfl⟩, fun _ => ⟨fun hm => by simp at hm, fun _ => rfl⟩⟩
 
+theorem tr_finish (o : Obj) : Tr o (finish o).1 (finish o).2 := by
+  unfold finish
+  split
+  · exact tr_complete' o
+  · exact tr_error o false
+
 theorem error_not_receiving (o : Obj) (i : Bool) : (error o i).1.st ≠ .receiving ∧ WEv.complete ∉ (error o i).2 := by
   unfold error
   simp only []
@@ -139,7 +145,7 @@ theorem tr_writeBlocks : ∀ (fuel : Nat) (o : Obj) (sbn : Nat),
             · rw [if_neg hs]
               by_cases hz : (wbAdvance o (sbn - o.blocksOffset) b).1.bytesLeft = 0
               · rw [if_pos hz]
-                exact Tr.cons _ _ _ _ (Tr.of_same o _ _ _ (same_wbAdvance o _ b) (tr_complete' _)) hw (by simp)
+                exact Tr.cons _ _ _ _ (Tr.of_same o _ _ _ (same_wbAdvance o _ b) (tr_finish _)) hw (by simp)
               · rw [if_neg hz]
                 exact Tr.cons _ _ _ _ (Tr.of_same o _ _ _ (same_wbAdvance o _ b) (ih _ _)) hw (by simp)
 
